@@ -1191,7 +1191,28 @@ def m_list_clear(eng, st, recv, args, kwargs):
     return ok(st, VNone)
 
 
-LIST_METHODS = {"append": m_list_append, "pop": m_list_pop, "extend": m_list_extend, "copy": m_list_copy, "clear": m_list_clear}
+def m_list_remove(eng, st, recv, args, kwargs):
+    """list.remove(x): delete the first element equal to x, ValueError when there is none."""
+    items = list(st.heap[recv.oid].f["items"])
+    out = []
+    cur = st
+    for i, it in enumerate(items):
+        eq = simp(eng.struct_eq(it, args[0], cur))
+        nxt = None
+        for s2, tv in eng.fork_bool(eq, cur, "list.remove-eq"):
+            if tv:
+                s2.heap[recv.oid].f["items"] = items[:i] + items[i + 1:]
+                out.append((s2, VNone))
+            else:
+                nxt = s2
+        if nxt is None:
+            return out
+        cur = nxt
+    out.append((cur, eng.raise_py(cur, ValueError, "list.remove(x): x not in list")))
+    return out
+
+
+LIST_METHODS = {"remove": m_list_remove, "append": m_list_append, "pop": m_list_pop, "extend": m_list_extend, "copy": m_list_copy, "clear": m_list_clear}
 
 
 def m_buf_append(eng, st, recv, args, kwargs):
